@@ -72,6 +72,7 @@ var naDom = []Rec{
 	naRec(0xffffffff, 0xffffffffffffffff, fill(16, 0xff), 0xffff),
 	naRec(0x495fab29, 1, ip4mapped, 8333),
 	naRec(0x80000000, 0x409, ip6, 0x0100),
+	naRec(0x495fab2a, 0x409, ip4mapped, 8334), // even port: 16-byte Go form (see naToWire)
 }
 
 // ----- block headers
